@@ -127,6 +127,16 @@ Theorem C15_next_params_spec :
     end.
 Proof. exact next_params_spec. Qed.
 
+(** The account state is the one decoded LAST: whatever earlier polls left in
+    the variable the application decodes account records into (tlb.Unmarshal
+    does not clear the unselected variant), NextMessageParams answers for the
+    current record (active -> deleted -> ...: own state-init and seqno 0 again).
+    The design reading the inner state tag only is refuted in Proofs/WalletHistory.v. *)
+Theorem C15_next_params_polled :
+  forall (code : version -> cell) w v0 recs rec,
+  next_params_var code w (fold_left decode_into (recs ++ [rec]) v0) = next_params code w rec.
+Proof. exact next_params_polled. Qed.
+
 (** highload has no seqno; its state-init is attached exactly for a
     non-existent or uninitialised account *)
 Theorem C15_next_params_highload :
